@@ -284,3 +284,53 @@ Example C10_flatten_computes :
   Schema.is_primitive (flatten ts) "x.S" = true /\ prim_of (flatten ts) "x.S" = Some "uima.cas.String" /\
   desc_names ts "a.A" = ["a.A"; "a.B"].
 Proof. vm_compute. repeat split. Qed.
+
+(* ================================================================================================================
+   Merging (coq/C10Merge.v on C13's model Merge.v of merge_typesystems).  The property quantifies over type systems
+   "obtained by any sequence of type creation ... and merging": `built` is that closure in the model — TypeSystem(), any
+   history of create_type / create_feature / instantiation applied to a built type system, merge_typesystems of any tuple
+   of built type systems, nested to any depth (a merge result extended and merged again, one type system taking part in
+   several merges).  Every built type system satisfies WFh, so every query theorem above holds of it; the two that the
+   re-parenting of merge_typesystems puts at stake are restated on `built` directly.  (XML / JSON loading: C12 / C02
+   establish WFh for their constructors.)  The "merge" sub-suite of the check (CorrC10merge.v) evaluates exactly these
+   programs on the model and on live objects, re-querying every object after every stage. *)
+From Cassis Require Import Merge MergeProofs C10Merge.
+
+Theorem C10_built_WF : forall ts, built ts -> WFh ts.
+Proof. exact built_WFh. Qed.
+Print Assumptions C10_built_WF.
+
+(* descendants of every type of a built type system is the duplicate-free closure of the declared relation *)
+Theorem C10_built_descendants_spec : forall ts a, built ts -> In a ts ->
+  exists l, descendants (desc_fuel ts) ts (t_name a) = Some l /\ NoDup l /\ forall d, In d l <-> below ts (t_name a) d.
+Proof. exact built_descendants. Qed.
+Print Assumptions C10_built_descendants_spec.
+
+(* everything a type of a built type system refers to is registered in that type system *)
+Theorem C10_built_refs_registered : forall ts t, built ts -> In t ts ->
+  find_ty ts (t_name t) = Some t /\
+  (forall s, t_super t = Some s -> registered ts s = true) /\
+  (forall c, In c (t_children t) -> registered ts c = true) /\
+  (forall f, In f (all_features t) -> feat_refs_ok ts f) /\
+  (forall f, In f (t_own t) -> f_dom f = t_name t).
+Proof. exact built_refs_registered. Qed.
+Print Assumptions C10_built_refs_registered.
+
+(* a merge of built type systems ends within its round bound (it answers, or raises ValueError: C13) *)
+Theorem C10_built_merge_terminates : forall inputs, (forall t, In t inputs -> built t) -> merge inputs <> OutOfFuel.
+Proof. exact built_merge_terminates. Qed.
+Print Assumptions C10_built_merge_terminates.
+
+(* non-vacuity: m.B declared below Annotation by one input and below m.A (which has a feature of its own) by the other is
+   moved below m.A; the result, extended by one more type below the moved one, is merged with the second input again *)
+Example C10_built_computes :
+  let i1 := final_ts [OCreateType "m.A" "uima.tcas.Annotation" None; OCreateType "m.B" "uima.tcas.Annotation" None;
+                      OCreateFeature "m.A" "f" "uima.cas.String" None None None] init_ts in
+  let i2 := final_ts [OCreateType "m.A" "uima.tcas.Annotation" None; OCreateType "m.B" "m.A" None] init_ts in
+  match merge [i1; i2] with
+  | Ok r1 => match merge [final_ts [OCreateType "z.N" "m.B" None] r1; i2] with
+             | Ok r2 => Some (option_map t_super (find_ty r1 "m.B"), descendants (desc_fuel r2) r2 "m.A", wfhb r2)
+             | _ => None end
+  | _ => None end
+  = Some (Some (Some "m.A"), Some ["m.A"; "m.B"; "z.N"], true).
+Proof. vm_compute. reflexivity. Qed.
